@@ -125,6 +125,18 @@ func loadKnown(prop string) ([]KnownEntry, error) {
 						}
 					}
 				}
+			case strings.HasPrefix(p[0], "ge."):
+				v, _ := strconv.ParseInt(p[1], 10, 64)
+				if e.Pred.Ge == nil {
+					e.Pred.Ge = map[string]int64{}
+				}
+				e.Pred.Ge[p[0][3:]] = v
+			case strings.HasPrefix(p[0], "le."):
+				v, _ := strconv.ParseInt(p[1], 10, 64)
+				if e.Pred.Le == nil {
+					e.Pred.Le = map[string]int64{}
+				}
+				e.Pred.Le[p[0][3:]] = v
 			case strings.HasPrefix(p[0], "arg."):
 				v, _ := strconv.ParseInt(p[1], 10, 64)
 				e.Pred.Arg[p[0][4:]] = v
